@@ -609,6 +609,10 @@ func (fr *frame) appendOp(args []SV, cur *State, rtyp types.Type) SV {
 		freshRow = vc.fresh("approw", "(Array Int "+es+")")
 		q := "(forall ((i Int)) (! (=> (and (<= 0 i) (< i " + sl + ")) (= (select " + freshRow + " i) (select " + srow + " (+ " + app("s_off", s.t) + " i)))) :pattern ((select " + freshRow + " i))))"
 		vc.assume(q)
+		// the same fact triggered from the source row (absolute position x): lets an element known in the old
+		// slice be found in the reallocated one
+		soffT := app("s_off", s.t)
+		vc.assume("(forall ((x Int)) (! (=> (and (<= " + soffT + " x) (< x (+ " + soffT + " " + sl + "))) (= (select " + freshRow + " (- x " + soffT + ")) (select " + srow + " x))) :pattern ((select " + srow + " x))))")
 		fr2 := freshRow
 		for j := int64(0); j < k.Int64(); j++ {
 			e := sel(trow, add(app("s_off", t.t), num(j)))
@@ -621,15 +625,27 @@ func (fr *frame) appendOp(args []SV, cur *State, rtyp types.Type) SV {
 		base := add(app("s_off", s.t), sl)
 		vc.assume("(forall ((i Int)) (! (= (select " + ip + " i) (ite (and (<= " + base + " i) (< i (+ " + base + " " + tl + "))) (select " + trow + " (+ " + app("s_off", t.t) + " (- i " + base + "))) (select " + srow + " i))) :pattern ((select " + ip + " i))))")
 		inplace = ip
+		{
+			toffT := app("s_off", t.t)
+			vc.assume("(forall ((x Int)) (! (=> (and (<= " + toffT + " x) (< x (+ " + toffT + " " + tl + "))) (= (select " + ip + " (+ " + base + " (- x " + toffT + "))) (select " + trow + " x))) :pattern ((select " + trow + " x))))")
+			vc.assume("(forall ((x Int)) (! (=> (not (and (<= " + base + " x) (< x (+ " + base + " " + tl + ")))) (= (select " + ip + " x) (select " + srow + " x))) :pattern ((select " + srow + " x))))")
+		}
 		nr := vc.fresh("approw", "(Array Int "+es+")")
 		vc.assume("(forall ((i Int)) (! (=> (and (<= 0 i) (< i " + n + ")) (= (select " + nr + " i) (ite (< i " + sl + ") (select " + srow + " (+ " + app("s_off", s.t) + " i)) (select " + trow + " (+ " + app("s_off", t.t) + " (- i " + sl + ")))))) :pattern ((select " + nr + " i))))")
+		soffT, toffT := app("s_off", s.t), app("s_off", t.t)
+		vc.assume("(forall ((x Int)) (! (=> (and (<= " + soffT + " x) (< x (+ " + soffT + " " + sl + "))) (= (select " + nr + " (- x " + soffT + ")) (select " + srow + " x))) :pattern ((select " + srow + " x))))")
+		vc.assume("(forall ((x Int)) (! (=> (and (<= " + toffT + " x) (< x (+ " + toffT + " " + tl + "))) (= (select " + nr + " (+ " + sl + " (- x " + toffT + "))) (select " + trow + " x))) :pattern ((select " + trow + " x))))")
 		freshRow = nr
 	}
 	newHeap := ite(fits, sto(h, app("s_ref", s.t), inplace), sto(h, newRef, freshRow))
 	// append(nil/empty, nothing) keeps s; Go returns s unchanged when t is empty
 	res := ite(fits, app("mk_slice", app("s_ref", s.t), app("s_off", s.t), n, app("s_cap", s.t)), app("mk_slice", newRef, "0", n, newCap))
 	// a nil slice with cap 0 and n == 0 stays nil: fits holds (0 <= 0), ref stays 0 - consistent.
-	vc.heapSet(cur, hn, vc.nameTerm2("h_"+hn, newHeap, vc.heapSort[hn]))
+	hname := vc.nameTerm2("h_"+hn, newHeap, vc.heapSort[hn])
+	vc.heapSet(cur, hn, hname)
+	// ground row equalities: the e-graph then matches element triggers of the result against the row constants
+	vc.assume(implies(fits, eq(sel(hname, app("s_ref", s.t)), inplace)))
+	vc.assume(implies(not(fits), eq(sel(hname, newRef), freshRow)))
 	return SV{t: vc.nameTerm2("app", res, "Slice"), typ: rtyp}
 }
 
